@@ -840,7 +840,10 @@ func (ts tasks) numToDo() (todo, notes int) {
 func (s *Server) CancelRequest(id string) {
 	s.mu.Lock()
 	defer s.mu.Unlock()
-	if s.cancelLocked(id) {
+	if cancel, ok := s.used[id]; ok {
+		// Cancel the handler's context but keep the ID reserved until the
+		// reply has been delivered; deliver releases it.
+		cancel()
 		s.log("Cancelled request %s by client order", id)
 	}
 }
